@@ -189,7 +189,11 @@ func (gtidSet MariadbGTIDSet) AddGTID(other GTID) GTIDSet {
 	for i, gtid := range gtidSet {
 		if mdbOther.Domain == gtid.Domain {
 			if mdbOther.Sequence > gtid.Sequence {
-				gtidSet[i] = mdbOther
+				// Copy: AddGTID must not alter the set it is called on.
+				newSet := make(MariadbGTIDSet, len(gtidSet))
+				copy(newSet, gtidSet)
+				newSet[i] = mdbOther
+				return newSet
 			}
 			return gtidSet
 		}
